@@ -54,35 +54,155 @@ def capacity(F, S):
     return out
 
 
-def verifiers_first(F, S, inv):
+def domain_params(fn):
+    """Parameters declared with the tree's own index / symbol typedefs (typedef sugar kept by the extractor)."""
     out = []
-    table = [("GetChildNode", 2, "VerifyNodeIndexInBounds"), ("IsLeaf", 1, "VerifyNodeIndexInBounds"), ("GetNodeData", 1, "VerifyNodeIndexInBounds"),
-             ("UpdateCodeCount", 1, "VerifyNodeDataInBounds"), ("GetEncodedBitString", 2, "VerifyNodeDataInBounds")]
-    for name, np_, ver in table:
-        fn = F.fn(AH + "::" + name, nparams=np_)
+    for i, p in enumerate(fn.params):
+        td = (p.get("td") or p.get("t") or "")
+        if td.endswith("NodeIndex"):
+            out.append((i, "index"))
+        elif td.endswith("NodeData"):
+            out.append((i, "symbol"))
+    return out
+
+
+def direct_mention(t, a):
+    """`a` occurs in value term t outside any table lookup (a value read out of a table is table-derived, not argument-derived)."""
+    if t == a:
+        return True
+    if not isinstance(t, tuple) or not t:
+        return False
+    if t[0] in ("idx", "call"):
+        return False
+    return any(direct_mention(x, a) for x in t[1:] if isinstance(x, tuple))
+
+
+def verifiers_first(F, S, inv):
+    """Every public operation, and every helper that is handed a symbol, refuses an out-of-range node position / symbol
+    before it subscripts a table with it. Independent of how the refusal is packaged (a verifier call, an inline test, a
+    lookup helper): what is required is that the subscript's bound is entailed where the subscript happens, that the
+    refusal, where it is a function of its own, refuses exactly the out-of-range values, and that no conversion on the
+    way can change the value that is tested."""
+    from ..prove import definitions, expand
+    from ..rules_narrow import r_narrow
+    out = []
+    rec = F.record(AH)
+    access = {m["key"]: m["access"] for m in rec["methods"]}
+    total = 0
+    ops = []
+    for fn in sorted(F.functions.values(), key=lambda f: f.key):
+        if fn.cls != AH or not fn.cfg or fn.d.get("ctor") or fn.d.get("implicit"):
+            continue
+        dps = domain_params(fn)
+        if not dps:
+            continue
+        pub = access.get(fn.key) == "public"
+        if not pub and not any(kind == "symbol" for _, kind in dps):
+            continue            # private helpers on node positions (SwapNodes): their callers' positions come from the tables
+        ops.append(fn)
         eng = Engine(F, S)
         eng.analyze(fn, frozenset(inv))
-        arg = P(fn, 0)
-        want = ("called", AH + "::" + ver, (arg,))
         n = 0
         for (nd, base, idx, ext) in subscript_sites(fn):
-            if not mentions(idx, arg):
+            site = final_site_facts(eng, fn, nd["id"]) or set()
+            idx_x = expand(idx, definitions(site))
+            args = [P(fn, i) for i, _ in dps]
+            if not any(direct_mention(idx, a) or direct_mention(idx_x, a) for a in args):
                 continue
             n += 1
-            site = final_site_facts(eng, fn, nd["id"]) or set()
-            inst = "%s::%s#%s[%s]" % (AH, name, fmt_term(base), fmt_term(idx))
-            req = "%s < %s.size() at the subscript (verifier passed, table sizes fixed by the constructor)" % (fmt_term(idx), fmt_term(base))
-            if want in site and prove_le(site, idx, ("size", base), strict=True):
-                out.append(ok("R-INDEX", inst, fn.loc(nd["id"]), fn.qn, req, "%s(%s) dominates; bound entailed with the class invariants" % (ver, arg[1])))
+            inst = "%s::%s#%s[%s]" % (AH, fn.name, fmt_term(base), fmt_term(idx))
+            req = "%s < %s.size() at the subscript (out-of-range argument refused first; table sizes fixed by the constructor)" % (fmt_term(idx), fmt_term(base))
+            if prove_le(site, idx, ("size", base), strict=True):
+                out.append(ok("R-INDEX", inst, fn.loc(nd["id"]), fn.qn, req, "bound entailed by the dominating refusal and the class invariants"))
             else:
-                out.append(bad("R-INDEX", inst, fn.loc(nd["id"]), fn.qn, req,
-                               "verifier passed: %s; facts: %s" % (want in site, facts_txt(site))))
-        if n == 0 and name != "GetEncodedBitString":
-            raise AnalysisBroken("%s: no parameter-indexed subscript found" % fn.qn)
-        out += r_atomic(F, S, fn) if name not in ("UpdateCodeCount",) else []
-    for ver, lim in (("VerifyNodeIndexInBounds", "nodeCount"), ("VerifyNodeDataInBounds", "terminalNodeCount")):
-        v = F.fn(AH + "::" + ver, nparams=1)
-        out += r_guard_exact(F, Engine(F, S), v, [(P(v, 0), ("mem", ("this",), lim), True)])
+                out.append(bad("R-INDEX", inst, fn.loc(nd["id"]), fn.qn, req, "facts: %s" % facts_txt(site)))
+        total += n
+        if pub and fn.name != "UpdateCodeCount":
+            out += r_atomic(F, S, fn)
+        # conversions of the argument (or of values computed from it) that may change its value
+        o2, _ = r_narrow(F, S, fn, entry=frozenset(inv), explicit_only=False, sign_conversions=False)
+        args = [P(fn, i) for i, _ in dps]
+        from ..rules_narrow import narrowing_sites, value_term
+        direct = set()
+        for (nid, src, cap, desc) in narrowing_sites(fn, False, False):
+            t = value_term(fn, src)
+            if any(direct_mention(t, a) for a in args):
+                direct.add("#narrow:" + fmt_term(t))
+        for o in o2:
+            if "accumulation in" in o.required:
+                continue
+            if any(o.instance.endswith(d) for d in direct):
+                out.append(o)
+    # refusal functions (a void helper whose only effect is to throw): exactness
+    nver = 0
+    for fn in sorted(F.functions.values(), key=lambda f: f.key):
+        if fn.cls != AH or not fn.cfg or fn.d.get("ctor") or len(fn.params) != 1 or (fn.d.get("ret_ct") or "void") != "void":
+            continue
+        dps = domain_params(fn)
+        if not dps or S.writes(fn):
+            continue
+        lim = "nodeCount" if dps[0][1] == "index" else "terminalNodeCount"
+        out += r_guard_exact(F, Engine(F, S), fn, [(P(fn, 0), ("mem", ("this",), lim), True)])
+        nver += 1
+    # the symbol refusal itself, wherever it lives: at the first table access of every operation on a symbol, the symbol
+    # is known to be below terminalNodeCount
+    for fn in ops:
+        dps = [i for i, kind in domain_params(fn) if kind == "symbol"]
+        if not dps or access.get(fn.key) != "public":
+            continue
+        code = P(fn, dps[0])
+        eng = Engine(F, S)
+        eng.analyze(fn, frozenset(inv))
+        first = None
+        for nd in fn.nodes:
+            if (nd["k"] == "CXXOperatorCallExpr" and nd.get("op") == "[]") or is_store(nd):
+                if final_site_facts(eng, fn, nd["id"]) is not None:
+                    first = nd
+                    break
+        inst = "%s::%s#symbol-refused-first" % (AH, fn.name)
+        req = "symbol < terminalNodeCount is established before the first table access or store"
+        if first is None:
+            raise AnalysisBroken("%s: no table access found" % fn.qn)
+        site = final_site_facts(eng, fn, first["id"]) or set()
+        if prove_le(site, code, ("mem", ("this",), "terminalNodeCount"), strict=True):
+            out.append(ok("R-MUSTCALL", inst, fn.loc(first["id"]), fn.qn, req, "entailed at %s" % fn.loc(first["id"])))
+        else:
+            out.append(bad("R-MUSTCALL", inst, fn.loc(first["id"]), fn.qn, req, "facts: %s" % facts_txt(site)))
+    return out, total
+
+
+def path_accumulator(F, S):
+    """GetEncodedBitString: the path is accumulated by shifting; no step of the accumulation is stored through a conversion
+    that drops high bits, and the accumulator is as wide as the result the function declares."""
+    fn = F.fn(AH + "::GetEncodedBitString", nparams=2)
+    out = []
+    n = 0
+    retw = fn.d.get("ret_iw")
+    for nd in fn.nodes:
+        if not (nd["k"] in ("BinaryOperator", "CompoundAssignOperator") and nd.get("op") in ("=", "<<=", "|=")):
+            continue
+        ks = fn.kids(nd["id"])
+        sub = set(fn.subtree(ks[1])) | {nd["id"]}
+        if not any(fn.n(x).get("op") in ("<<", "<<=") for x in sub if fn.n(x)["k"] in ("BinaryOperator", "CompoundAssignOperator")):
+            continue
+        n += 1
+        l = fn.n(fn.strip(ks[0], casts=False))
+        lw = l.get("iw")
+        inst = "%s#accumulate:%s" % (fn.qn, fmt_term(fn.term(ks[0])))
+        req = "the shifted path is stored without dropping high bits and the accumulator is as wide as the declared result (%s bits)" % retw
+        rhs = fn.n(ks[1])
+        inner = ks[1]
+        while fn.n(inner)["k"] == "ImplicitCastExpr" and fn.kids(inner):
+            inner = fn.kids(inner)[0]
+        iw_in = fn.n(inner).get("iw")
+        narrowed = rhs["k"] == "ImplicitCastExpr" and rhs.get("iw") and iw_in and rhs["iw"] < iw_in
+        if narrowed or (lw and retw and lw < retw):
+            out.append(bad("R-NARROW", inst, fn.loc(nd["id"]), fn.qn, req,
+                           "accumulator is %s bits wide%s" % (lw, "; the shifted value (%s bits) is converted back on every step" % iw_in if narrowed else "")))
+        else:
+            out.append(ok("R-NARROW", inst, fn.loc(nd["id"]), fn.qn, req, "accumulator %s bits, no narrowing store" % lw))
+    if n == 0:
+        raise AnalysisBroken("GetEncodedBitString: no shift accumulation found")
     return out
 
 
@@ -105,6 +225,15 @@ def units(F, S):
                         n += 1
                         inst = "%s::%s#code-to-leaf:%s" % (AH, name, d["n"])
                         req = "the node index for a symbol is looked up through parentIndex[code + nodeCount] (the leaf that currently holds it)"
+                        if it[0] == "call" and it[2] in (("this",), None) and len(it[3]) == 1 and it[3][0] == code:
+                            # a lookup helper: what it returns, with the symbol substituted for its parameter
+                            from ..flow import substitute
+                            cands = [c for c in F.fns(it[1]) if c.cfg and len(c.params) == 1]
+                            rs = [c.term(r["value"]) for c in cands for r in returns(c)]
+                            if len(cands) == 1 and rs:
+                                sub = {substitute(r, {P(cands[0], 0): code}) for r in rs}
+                                if len(sub) == 1:
+                                    it = sub.pop()
                         if it in (want, want2):
                             out.append(ok("R-UNITS", inst, fn.loc(nd["id"]), fn.qn, req, fmt_term(it)))
                         else:
@@ -186,8 +315,18 @@ def check(F, run, tier):
     inv, notes = class_invariants(F, S, AH)
     run.extra["class_invariants"] = sorted(fmt_fact(f) for f in inv)
     run.add(capacity(F, S))
-    run.add(verifiers_first(F, S, inv))
+    obs, n = verifiers_first(F, S, inv)
+    run.add(obs)
+    run.floor("argument-derived-subscripts", n, 4)
+    from ..rules_narrow import r_narrow
+    fx = [f for f in F.fixture_functions.values() if f.qn == "fixture::Codes::Find"]
+    hit = False
+    if fx:
+        o, _ = r_narrow(F, S, fx[0], explicit_only=False, sign_conversions=False)
+        hit = any(x.status == "violated" and "code" in x.instance for x in o)
+    run.fixture("fixtures/raw_read.cpp: `uint16_t slot = code + count` before the range test is reported by R-NARROW", hit)
     run.add(units(F, S))
+    run.add(path_accumulator(F, S))
     obs, n = link_or_data_split(F, S)
     run.add(obs)
     run.floor("link-data-tests", n, 3)
